@@ -219,7 +219,6 @@ func runC04(r *Run) {
 	commitPathOrder(r, "C04.7")
 }
 
-
 func runC07(r *Run) {
 	w := r.W
 	fns := tmiFuncs(w)
